@@ -397,6 +397,8 @@ def gen_memdep_x86(rng):
             sym[c] = sym.get(reg, (reg, 0))
             (holders_b if reg in holders_b else holders_i).append(c) if c not in pool else None
         elif r < 0.88:
+            # (once a copy of the store's own base / index exists, the ORIGINAL is the one overwritten: the copy outlives it)
+            reg = base if len(holders_b) > 1 and not rip else idx if (has_idx and len(holders_i) > 1) else reg
             lines.append("leaq 8(%s), %s" % (reg, reg))    # a change OSACA cannot reconstruct
             sym[reg] = None
         elif r < 0.94:
@@ -551,6 +553,9 @@ def gen_memdep_a64(rng):
             if c not in pool:
                 (holders_b if reg in holders_b else holders_i).append(c)
         elif r < 0.90:
+            if wb is None:
+                # (once a copy of the store's own base / index exists, the ORIGINAL is the one overwritten)
+                reg = base if len(holders_b) > 1 else idx if (has_idx and len(holders_i) > 1) else reg
             lines.append("mul %s, %s, %s" % (reg, reg, other))    # unknown change
             sym[reg] = None
         else:
